@@ -16,6 +16,7 @@ import (
 	"go/constant"
 	"go/token"
 	"go/types"
+	"sort"
 	"strings"
 
 	"golang.org/x/tools/go/ssa"
@@ -28,17 +29,13 @@ type SV struct {
 	B     bool
 	Nil   bool
 	S     string
-	Len   *SV    // for slice/str: length (may be nil = unknown)
-	Cap   *SV    // slices
-	Desc  string // provenance expression
-	Elems []SV   // tuple
-	Cell  *cell  // for addr of local cells
-}
-
-type cell struct {
-	id  int
-	val SV
-	set bool
+	Len   *SV           // for slice/str: length (may be nil = unknown)
+	Cap   *SV           // slices
+	Desc  string        // provenance expression
+	Elems []SV          // tuple
+	M     map[int64]SV  // concrete map content (immutable, copy on write)
+	Fn    *ssa.Function // closure target
+	Bind  []SV          // closure bindings
 }
 
 func symInt(n int64) SV     { return SV{K: "int", Known: true, N: n, Desc: fmt.Sprint(n)} }
@@ -64,10 +61,22 @@ type Event struct {
 	What string   // callee id / address description
 	Args []string // argument / value provenance expressions
 	In   string   // function in which it happened (for inlined callees)
+	Note string   // for modelled calls: which alternative the path took
+}
+
+// CallAlt is one modelled outcome of a call (the evaluator forks over the alternatives).
+type CallAlt struct {
+	Ret    SV
+	Note   string
+	Effect func(ev *symEval, st *symState)
 }
 
 func (e Event) String() string {
-	return e.Kind + " " + e.What + "(" + strings.Join(e.Args, ", ") + ")"
+	s := e.Kind + " " + e.What + "(" + strings.Join(e.Args, ", ") + ")"
+	if e.Note != "" {
+		s += "->" + e.Note
+	}
+	return s
 }
 
 // Path is one explored path with its outcome.
@@ -95,11 +104,17 @@ type Scenario struct {
 	// Params gives values for parameters by name-independent id: recv, p0, p1, ...
 	Params map[string]SV
 	// Call models a call: given the callee id and argument values, optionally return a result.
-	Call func(callee string, args []SV, ev *symEval) (SV, bool)
+	Call func(callee string, args []SV, ev *symEval, st *symState) (SV, bool)
+	// Alts models a call with several possible outcomes (explored exhaustively).
+	Alts func(callee string, args []SV, ev *symEval, st *symState) []CallAlt
 	// Inline says whether a static module callee should be evaluated in place.
 	Inline func(f *ssa.Function) bool
 	// Assume fixes undetermined conditions by their description (true/false); unlisted ones fork.
 	Assume map[string]bool
+	// MaxVisit bounds how often one block may be entered on a path (loop unrolling bound; default 3).
+	MaxVisit int
+	// NoFork lists condition-description prefixes that must never fork (evaluation error instead).
+	MaxPaths int
 }
 
 type symState struct {
@@ -125,7 +140,6 @@ func (s *symState) clone() *symState {
 type symFrame struct {
 	fn     *ssa.Function
 	env    map[ssa.Value]SV
-	cells  map[*ssa.Alloc]*cell
 	visits map[*ssa.BasicBlock]int
 	prev   *ssa.BasicBlock
 	depth  int
@@ -133,24 +147,10 @@ type symFrame struct {
 }
 
 func (f *symFrame) clone() *symFrame {
-	n := &symFrame{fn: f.fn, env: make(map[ssa.Value]SV, len(f.env)), cells: make(map[*ssa.Alloc]*cell, len(f.cells)),
+	n := &symFrame{fn: f.fn, env: make(map[ssa.Value]SV, len(f.env)),
 		visits: make(map[*ssa.BasicBlock]int, len(f.visits)), prev: f.prev, depth: f.depth}
 	for k, v := range f.env {
 		n.env[k] = v
-	}
-	remap := map[*cell]*cell{}
-	for k, v := range f.cells {
-		c := *v
-		remap[v] = &c
-		n.cells[k] = &c
-	}
-	for k, v := range n.env {
-		if v.Cell != nil {
-			if nc, ok := remap[v.Cell]; ok {
-				v.Cell = nc
-				n.env[k] = v
-			}
-		}
 	}
 	for k, v := range f.visits {
 		n.visits[k] = v
@@ -160,6 +160,7 @@ func (f *symFrame) clone() *symFrame {
 }
 
 type symEval struct {
+	closures map[string]SV
 	sc       *Scenario
 	counter  int
 	maxVisit int
@@ -171,6 +172,12 @@ type symEval struct {
 // evalPaths enumerates the paths of fn under the scenario.
 func evalPaths(fn *ssa.Function, sc *Scenario) ([]Path, error) {
 	ev := &symEval{sc: sc, maxVisit: 3, maxPaths: 4000}
+	if sc.MaxVisit > 0 {
+		ev.maxVisit = sc.MaxVisit
+	}
+	if sc.MaxPaths > 0 {
+		ev.maxPaths = sc.MaxPaths
+	}
 	st := &symState{heap: map[string]SV{}, assume: map[string]bool{}}
 	for k, v := range sc.Heap {
 		st.heap[k] = v
@@ -243,7 +250,7 @@ func (ev *symEval) call(fn *ssa.Function, args []SV, bindings []SV, st *symState
 	if len(fn.Blocks) == 0 {
 		return []outcome{{st: st, kind: "return", ret: []SV{symOpaque("extern " + extName(fn))}}}
 	}
-	fr := &symFrame{fn: fn, env: map[ssa.Value]SV{}, cells: map[*ssa.Alloc]*cell{}, visits: map[*ssa.BasicBlock]int{}, depth: depth}
+	fr := &symFrame{fn: fn, env: map[ssa.Value]SV{}, visits: map[*ssa.BasicBlock]int{}, depth: depth}
 	for i, p := range fn.Params {
 		fr.env[p] = args[i]
 	}
@@ -305,15 +312,18 @@ func constSV(c *ssa.Const) SV {
 	return symOpaque(c.Value.ExactString())
 }
 
+func isCellAddr(d string) bool { return strings.HasPrefix(d, "cell:") || strings.HasPrefix(d, "new ") }
+
 func (ev *symEval) load(fr *symFrame, st *symState, addr SV, t types.Type) SV {
-	if addr.Cell != nil {
-		if addr.Cell.set {
-			return addr.Cell.val
-		}
-		return zeroFor(t)
-	}
 	if v, ok := st.heap[addr.Desc]; ok {
 		return v
+	}
+	if isCellAddr(addr.Desc) {
+		z := zeroFor(t)
+		if z.K == "opaque" {
+			z.Desc = addr.Desc
+		}
+		return z
 	}
 	d := addr.Desc
 	return defaultFor(t, strings.TrimPrefix(d, "&"))
@@ -429,16 +439,24 @@ func (ev *symEval) runBlock(fr *symFrame, b *ssa.BasicBlock, idx int, st *symSta
 		case *ssa.Store:
 			addr := ev.val(fr, x.Addr)
 			v := ev.val(fr, x.Val)
-			if addr.Cell != nil {
-				addr.Cell.val, addr.Cell.set = v, true
-			} else {
-				st.heap[addr.Desc] = v
+			st.heap[addr.Desc] = v
+			if !strings.HasPrefix(addr.Desc, "cell:") {
 				st.trace = append(st.trace, Event{Kind: "store", What: addr.Desc, Args: []string{v.Desc}, In: fname(fr.fn)})
 			}
 		case *ssa.Send:
 			st.trace = append(st.trace, Event{Kind: "send", What: ev.val(fr, x.Chan).Desc, Args: []string{ev.val(fr, x.X).Desc}, In: fname(fr.fn)})
 		case *ssa.MapUpdate:
-			st.trace = append(st.trace, Event{Kind: "mapupdate", What: ev.val(fr, x.Map).Desc, Args: []string{ev.val(fr, x.Key).Desc, ev.val(fr, x.Value).Desc}, In: fname(fr.fn)})
+			mv, kv, vv := ev.val(fr, x.Map), ev.val(fr, x.Key), ev.val(fr, x.Value)
+			if cur, ok := st.heap["map:"+mv.Desc]; ok && kv.K == "int" && kv.Known {
+				nm := make(map[int64]SV, len(cur.M)+1)
+				for k, v := range cur.M {
+					nm[k] = v
+				}
+				nm[kv.N] = vv
+				st.heap["map:"+mv.Desc] = SV{K: "mapval", M: nm}
+			} else {
+				st.trace = append(st.trace, Event{Kind: "mapupdate", What: mv.Desc, Args: []string{kv.Desc, vv.Desc}, In: fname(fr.fn)})
+			}
 		case *ssa.Go:
 			st.trace = append(st.trace, ev.callEvent(fr, "go", x))
 		case *ssa.Defer:
@@ -545,14 +563,38 @@ func (ev *symEval) doCall(fr *symFrame, st *symState, x *ssa.Call) ([]outcome, b
 			}
 		}
 	}
+	if ev.sc.Alts != nil {
+		if alts := ev.sc.Alts(id, args, ev, st); len(alts) > 0 {
+			var outs []outcome
+			for i, a := range alts {
+				s2 := st
+				if i < len(alts)-1 {
+					s2 = st.clone()
+				}
+				e := ev.callEvent(fr, "call", x)
+				e.Note = a.Note
+				s2.trace = append(s2.trace, e)
+				if a.Effect != nil {
+					a.Effect(ev, s2)
+				}
+				outs = append(outs, outcome{st: s2, ret: []SV{a.Ret}, kind: "return"})
+				ev.paths++
+			}
+			if ev.paths > ev.maxPaths {
+				ev.err = fmt.Errorf("path explosion in %s", fname(fr.fn))
+				return nil, true
+			}
+			return outs, true
+		}
+	}
 	if ev.sc.Call != nil {
-		if r, ok := ev.sc.Call(id, args, ev); ok {
+		if r, ok := ev.sc.Call(id, args, ev, st); ok {
 			st.trace = append(st.trace, ev.callEvent(fr, "call", x))
 			fr.env[x] = r
 			return nil, false
 		}
 	}
-	if f := cc.StaticCallee(); f != nil && ev.sc.Inline != nil && ev.sc.Inline(f) && fr.depth < 4 && len(f.Blocks) > 0 {
+	if f := cc.StaticCallee(); f != nil && ev.sc.Inline != nil && ev.sc.Inline(f) && fr.depth < 6 && len(f.Blocks) > 0 {
 		var bind []SV
 		if mc, ok := cc.Value.(*ssa.MakeClosure); ok {
 			for _, b := range mc.Bindings {
@@ -561,6 +603,12 @@ func (ev *symEval) doCall(fr *symFrame, st *symState, x *ssa.Call) ([]outcome, b
 		}
 		outs := ev.call(f, args, bind, st, fr.depth+1)
 		return outs, true
+	}
+	if !cc.IsInvoke() && cc.StaticCallee() == nil {
+		if cv := ev.val(fr, cc.Value); cv.Fn != nil && ev.sc.Inline != nil && ev.sc.Inline(cv.Fn) && fr.depth < 6 {
+			outs := ev.call(cv.Fn, args, cv.Bind, st, fr.depth+1)
+			return outs, true
+		}
 	}
 	e := ev.callEvent(fr, "call", x)
 	st.trace = append(st.trace, e)
@@ -601,14 +649,11 @@ func shortCallee(id string) string {
 func (ev *symEval) evalValue(fr *symFrame, st *symState, v ssa.Value) SV {
 	switch x := v.(type) {
 	case *ssa.Alloc:
-		c := &cell{id: ev.counter}
-		ev.counter++
-		fr.cells[x] = c
-		if x.Heap && strings.Contains(x.Comment, "complit") || x.Comment == "new" || x.Comment == "complit" {
+		if x.Heap && (strings.Contains(x.Comment, "complit") || x.Comment == "new") {
 			// heap object: address it symbolically so that field stores are visible
 			return SV{K: "addr", Known: true, Desc: ev.fresh("new " + typeStr(deref(x.Type())))}
 		}
-		return SV{K: "addr", Known: true, Desc: "&local " + x.Comment, Cell: c}
+		return SV{K: "addr", Known: true, Desc: ev.fresh("cell:" + x.Comment)}
 	case *ssa.FieldAddr:
 		base := ev.val(fr, x.X)
 		return SV{K: "addr", Known: true, Desc: base.Desc + "." + fieldName(deref(x.X.Type()), x.Field)}
@@ -630,6 +675,20 @@ func (ev *symEval) evalValue(fr *symFrame, st *symState, v ssa.Value) SV {
 	case *ssa.Lookup:
 		base := ev.val(fr, x.X)
 		i := ev.val(fr, x.Index)
+		if cur, ok := st.heap["map:"+base.Desc]; ok && i.K == "int" && i.Known {
+			v, found := cur.M[i.N]
+			var vt types.Type = x.Type()
+			if x.CommaOk {
+				vt = x.Type().(*types.Tuple).At(0).Type()
+			}
+			if !found {
+				v = zeroFor(vt)
+			}
+			if x.CommaOk {
+				return SV{K: "tuple", Desc: "lookup", Elems: []SV{v, symBool(found)}}
+			}
+			return v
+		}
 		d := base.Desc + "[" + i.Desc + "]"
 		if x.CommaOk {
 			return SV{K: "tuple", Desc: d, Elems: []SV{defaultFor(x.Type().(*types.Tuple).At(0).Type(), d), {K: "bool", Desc: "ok(" + d + ")"}}}
@@ -750,19 +809,57 @@ func (ev *symEval) evalValue(fr *symFrame, st *symState, v ssa.Value) SV {
 		for _, b := range x.Bindings {
 			bs = append(bs, ev.val(fr, b).Desc)
 		}
-		return SV{K: "ref", Known: true, Desc: "closure " + extName(x.Fn.(*ssa.Function)) + "[" + strings.Join(bs, ",") + "]"}
+		var bind []SV
+		for _, b := range x.Bindings {
+			bind = append(bind, ev.val(fr, b))
+		}
+		cl := SV{K: "ref", Known: true, Desc: "closure " + extName(x.Fn.(*ssa.Function)) + "[" + strings.Join(bs, ",") + "]", Fn: x.Fn.(*ssa.Function), Bind: bind}
+		if ev.closures == nil {
+			ev.closures = map[string]SV{}
+		}
+		st.heap["closure:"+extName(cl.Fn)] = cl
+		return cl
 	case *ssa.MakeSlice:
 		l := ev.val(fr, x.Len)
 		c := ev.val(fr, x.Cap)
 		return SV{K: "slice", Desc: ev.fresh("make") + "(" + l.Desc + ")", Len: &l, Cap: &c}
 	case *ssa.MakeMap:
-		return SV{K: "ref", Known: true, Desc: ev.fresh("makemap")}
+		id := ev.fresh("makemap")
+		st.heap["map:"+id] = SV{K: "mapval", M: map[int64]SV{}}
+		return SV{K: "ref", Known: true, Desc: id}
 	case *ssa.MakeChan:
 		return SV{K: "ref", Known: true, Desc: ev.fresh("makechan")}
 	case *ssa.Range:
-		return symOpaque("range(" + ev.val(fr, x.X).Desc + ")")
+		rv := ev.val(fr, x.X)
+		if cur, ok := st.heap["map:"+rv.Desc]; ok {
+			id := ev.fresh("iter")
+			var keys []int64
+			for k := range cur.M {
+				keys = append(keys, k)
+			}
+			sort.Slice(keys, func(i, j int) bool { return keys[i] < keys[j] })
+			var el []SV
+			for _, k := range keys {
+				el = append(el, symInt(k))
+			}
+			st.heap["iter:"+id] = SV{K: "iterstate", N: 0, Elems: el, Desc: rv.Desc}
+			return SV{K: "iter", Desc: id}
+		}
+		return symOpaque("range(" + rv.Desc + ")")
 	case *ssa.Next:
 		it := ev.val(fr, x.Iter)
+		if is, ok := st.heap["iter:"+it.Desc]; ok {
+			tup := x.Type().(*types.Tuple)
+			if int(is.N) >= len(is.Elems) {
+				return SV{K: "tuple", Desc: "next", Elems: []SV{symBool(false), zeroFor(tup.At(1).Type()), zeroFor(tup.At(2).Type())}}
+			}
+			k := is.Elems[is.N]
+			cur := st.heap["map:"+is.Desc]
+			v := cur.M[k.N]
+			is.N++
+			st.heap["iter:"+it.Desc] = is
+			return SV{K: "tuple", Desc: "next", Elems: []SV{symBool(true), k, v}}
+		}
 		n := ev.fresh("next")
 		tup := x.Type().(*types.Tuple)
 		return SV{K: "tuple", Desc: n, Elems: []SV{{K: "bool", Desc: "more(" + it.Desc + ")@" + n}, defaultFor(tup.At(1).Type(), n+".k"), defaultFor(tup.At(2).Type(), n+".v")}}
